@@ -69,7 +69,8 @@ prop("C01",
 
 prop("C05",
      level="proof",
-     ground=[lexical.c05_lexical],
+     ground=[lexical.c05_lexical, tables.c04_regex_bounded],
+     bounded=["framing of a partial update inside <DATAS>..</DATAS> (GeckoPacketProtocolHandler._extract_packet_parts, re.search): bounded stand-in c04_packet_regex_bounded -- payloads containing newline bytes / frame delimiters must reach the handler; shared with C04"],
      assumptions=["history clause by induction outside the solver: every operation (STATP message, refresh install) has a functional contract block' = op(block) that depends on no hidden state (buffer invariant proved), so a history is the composition of the per-operation contracts",
                   "message well-formedness (STATP, count, 4-byte records, last record >= 2 bytes) is a precondition; STATQ datagrams arriving at the client are outside the property",
                   "sequence numbers: the contract of get_and_increment_sequence_counter(False) used at the acknowledgement is discharged on the real counters of both connection classes (harnesses shared with C16)"],
@@ -110,6 +111,7 @@ prop("C20",
 
 prop("C13",
      level="proof",
+     ground=[tables.c13_command_tables_ground],
      assumptions=["spa model (ASSUMED, outside the code): the spa applies a set-value word at the written position and echoes it as a partial update; a key press toggles the device it belongs to",
                   "the request engine (retry, lock) is the contract proved in C06; here it is a stand-in that builds the request once",
                   "commands are issued while connected and answering pings (the gates are C06)"],
@@ -158,6 +160,7 @@ prop("C11",
 
 prop("C12",
      level="proof",
+     ground=[tables.c12_wiring_tables_ground],
      budget={"quick": 60, "thorough": 300},
      assumptions=["combination classes as in C11; combinations on which no facade can be constructed (C11 known findings: no TempUnits / heater items missing) are outside this property's reach (precondition)",
                   "guarded lists: constructors and loop bodies of guarded elements are executed speculatively (their side effects on other objects -- observer registration -- over-approximate); exceptions and returns under a guard fork on the guard",
